@@ -153,7 +153,8 @@ def run_case_task(task):
                     mv = f[2]
                     break
             n_random = int(opts.get('n_random', 300))
-            w, tried = replay.search(c, build, mv, n_random=n_random, seed=int(opts.get('seed', 0)))
+            ign = tuple(x.split('.')[-1] for x in copts.get('ignore', ()))
+            w, tried = replay.search(c, build, mv, n_random=n_random, seed=int(opts.get('seed', 0)), ignore=ign)
             out['replay_tried'] = tried
             if w is not None:
                 out['violation'] = {'witness': w, 'failing': [(f[0], f[1], f[3], f[4]) for f in failing[:8]]}
